@@ -168,6 +168,10 @@ def run(ctx):
 
 
 
+    # the ID3v1 codec and update_to_v23 / update_to_v24 at the frame level against Model/Id3v1.lean, Model/Id3Convert.lean
+    import id3convert_tie
+    id3convert_tie.run(ctx)
+
 def check_sources(ctx):
     """hand-built v2.2 / v2.3 source tags (dates in TYE/TDA/TIM resp. TYER/TDAT/TIME, numeric frames), with and without a
     trailing ID3v1 block that carries a year: loaded with the defaults (translate to v2.4, ID3v1 merged) the recording
